@@ -240,6 +240,9 @@ type Hit struct {
 	Flags uint32 `json:"flags"`
 	TTL   uint32 `json:"ttl,omitempty"`
 	Idx   int    `json:"idx"` // index of the key in the request (binary) or -1
+	// Raw is the byte slice a handler returned, kept until the harness decides to look at it
+	// (a handler that hands out a slice of a buffer it reuses is caught that way).
+	Raw []byte `json:"-"`
 }
 
 // Reply is what the client observed for one request.
